@@ -47,5 +47,21 @@ Theorem C11_paste_is_sequencing : forall pb pre mid post cs, panicked (snd cs) =
   panicked (snd (walk pb pre cs)) = None -> panicked (snd (walk pb mid (walk pb pre cs))) = None ->
   walk pb (pre ++ mid ++ post) cs = walk pb post (walk pb mid (walk pb pre cs)).
 Proof. exact walk_concat. Qed.
+(* The search path: a name that exists as given is taken as given; otherwise the first library directory (in the order of
+   FRUNDISLIB) that has it; otherwise the include is reported as not found.  C11_include_is_walk holds for whatever path
+   the search returns: a file found through the library path is walked exactly like one found in the current directory. *)
+Theorem C11_search_current_directory_first : forall name c, is_file name c = true -> search_inc_file name c = (name, true).
+Proof. exact search_finds_cwd_first. Qed.
+Theorem C11_search_first_library_directory : forall name c pre d post,
+  is_file name c = false -> libdirs c = (pre ++ d :: post)%list ->
+  (forall d', In d' pre -> is_file (PathClean.join [d'; name]) c = false) ->
+  is_file (PathClean.join [d; name]) c = true ->
+  search_inc_file name c = (PathClean.join [d; name], true).
+Proof. exact search_finds_first_library. Qed.
+Theorem C11_search_reports_absence : forall name c,
+  is_file name c = false -> (forall d, In d (libdirs c) -> is_file (PathClean.join [d; name]) c = false) ->
+  search_inc_file name c = (name, false).
+Proof. exact search_reports_absence. Qed.
 Print Assumptions C11_include_is_walk.
+Print Assumptions C11_search_first_library_directory.
 Print Assumptions C11_paste_is_sequencing.
